@@ -29,12 +29,12 @@ C12Rejected(nd)    == nd.a \in {"Own", "Priv", "Kill"} => RejectedChangesNothing
 C12Privileged(nd)  == nd.a = "Priv" => PrivilegedOnlyDesignated(nd.args.chain, nd.args.sender, nd.res.ok)
 C12PrivRole(nd)    == nd.a = "Priv" => PrivilegedRole(nd.args.v, nd.args.chain, nd.args.sender, nd.res.ok)
 C12PrivElse(nd)    == nd.a = "Priv" => PrivilegedElsewhere(nd.args.chain, nd.args.sender, nd.res.ok)
-C12Kill(nd)        == nd.a = "Kill" => KillOnlyAdmin(nd.args.sender, nd.res.ok)
+C12Kill(nd)        == nd.a = "Kill" => KillOnlyAdmin(nd.args.adm, nd.args.sender, nd.res.ok)
 
 ConfOwner(nd) == nd.a = "Own" /\ RefOk(nd) /\ OwnerPredicted(Row(nd.args.msg), nd.args.holder, nd.args.signer, nd.args.amt, nd.args.scope) =>
                    nd.res.ok = OwnerStep(Pos0(nd.args.holder), Row(nd.args.msg), nd.args.signer, TRUE).ok
 ConfPriv(nd)  == nd.a = "Priv" /\ RefOk(nd) => nd.res.ok = ImplPrivOk(nd.args.v, nd.args.chain, nd.args.sender)
-ConfKill(nd)  == nd.a = "Kill" => nd.res.ok = ImplKillOk(nd.args.sender)
+ConfKill(nd)  == nd.a = "Kill" => nd.res.ok = ImplKillOk(nd.args.adm, nd.args.sender)
 ConfCatalogue(nd) == nd.a = "Catalogue" => Range(nd.st.ids) = Ids
 
 (* ---------------------------------- C14 ---------------------------------- *)
@@ -109,6 +109,9 @@ PrivAccepted(nd) == nd.a = "Priv" /\ nd.args.chain \in MainTest /\ nd.res.ok /\ 
 PrivElse(nd)     == nd.a = "Priv" /\ nd.args.chain \notin MainTest /\ nd.args.sender # "admin" /\ RefOk(nd)
 KillRej(nd)      == nd.a = "Kill" /\ ~nd.res.ok
 KillAcc(nd)      == nd.a = "Kill" /\ nd.res.ok
+KillRotatedAcc(nd) == nd.a = "Kill" /\ nd.args.adm = "rotated" /\ nd.res.ok          \* the rotation really took effect
+KillEmptyRej(nd) == nd.a = "Kill" /\ nd.args.adm = "empty" /\ ~nd.res.ok
+PrivPayload(nd)  == nd.a = "Priv" /\ nd.args.chain \in MainTest /\ nd.args.pay = "designated" /\ nd.args.sender # nd.args.des /\ RefOk(nd)
 CtlBreaker(nd)   == nd.a = "Ctl" /\ BreakerReq(RowOfN(nd), CtlOfN(nd)) /\ RefOk(nd)
 CtlShutdown(nd)  == nd.a = "Ctl" /\ ShutdownReq(RowOfN(nd), CtlOfN(nd)) /\ RefOk(nd)
 CtlCoolOff(nd)   == nd.a = "Ctl" /\ CoolOffReq(RowOfN(nd), CtlOfN(nd)) /\ RefOk(nd)
@@ -145,7 +148,8 @@ Stats == PrintT(<<"STATS", [nodes |-> NLog, states |-> Cnt(IsState), own |-> Cnt
            ownScopeWitness |-> Cnt(OwnScopeWitness), ctlNoSnapshot |-> Cnt(CtlNoSnapshot),
            ctlPriceInactive |-> Cnt(CtlPriceInactive), ctlPriceMissing |-> Cnt(CtlPriceMissingM),
            privGuarded |-> Cnt(PrivGuarded), privAccepted |-> Cnt(PrivAccepted), privElsewhere |-> Cnt(PrivElse),
-           killRejected |-> Cnt(KillRej), killAccepted |-> Cnt(KillAcc),
+           killRejected |-> Cnt(KillRej), killAccepted |-> Cnt(KillAcc), killRotatedAccepted |-> Cnt(KillRotatedAcc),
+           killEmptyRejected |-> Cnt(KillEmptyRej), privPayloadNamesDesignated |-> Cnt(PrivPayload),
            ctlBreaker |-> Cnt(CtlBreaker), ctlShutdown |-> Cnt(CtlShutdown), ctlCoolOff |-> Cnt(CtlCoolOff),
            ctlCoolWitness |-> Cnt(CtlCoolWitness), ctlPrice |-> Cnt(CtlPrice), ctlRef |-> Cnt(CtlRef), ctlRefOk |-> Cnt(CtlRefOk),
            ctlFreeOk |-> Cnt(CtlFree), hookBreaker |-> Cnt(HookBreaker), hookPrice |-> Cnt(HookPrice), hookRef |-> Cnt(HookRef), hookRefActs |-> Cnt(HookRefActs),
